@@ -267,7 +267,7 @@ def run_pair(job):
                     if e["kf"]:
                         kf_events.add(e["of"])
                         kf_events.add(e["i"])
-            fails = [f for f in m.fails() if f[0] != "DRIFT"]
+            fails = [f for f in m.fails() if f[0] not in ("DRIFT", "BEYOND")]
             bad = []
             for f in fails:
                 if f[2] in kf_events or f[1].endswith("_foreign_layout"):
